@@ -35,8 +35,18 @@ as a vector: every output column must hold what its function gives on a FRESH pl
 Equal-but-distinguishable keys (blocks 'eqkeys-*'): 0.0 / -0.0, True / 1 / 1.0, 2 / 2.0 in one or two key
 columns form ONE group (== decides); the key cell shown for a group may be that of any of its rows (the
 statement names no representative), group order and values as everywhere else.
+Same-name value vectors (op 'samename', relational_history): two vectors that share the name 'v' but not their contents, given to
+different aggregate arguments of ONE call (every ordered pair of built-ins, one built-in over the list of both, built-in + apply,
+two apply entries); pairs made of the table column (by name / vector) and an external vector, two external vectors, two table
+columns of one name, and derived vectors that kept the name (-t.v, t.v.fillna(0), an overwritten copy).  Each result column is the
+textbook function over the vector that was PASSED to that argument; failure keys 'aggregate-same-name-vectors:<fn>:...'.
+Repeat the call after a write (op 'rewrite', relational_history): aggregate, rewrite one key cell (or one value cell) in place -
+through the column view, a held view, t['k'][i], one-cell slice / mask writes, table cell assignment - with ordinary and
+hash-colliding old / new values (-1/-2, 0/2**61-1, -1.0/-2.0), aggregate again: oracle on the NEW contents, and aggregate / window
+agreement on the rewritten table; failure keys 'aggregate-after-write:<key|value>-cell-rewritten:<how>:...'.
 """
 from relational_common import *  # noqa
+from relational_history import *  # noqa
 
 PID = 'C12'
 OP = 'aggregate'
@@ -52,6 +62,8 @@ def cases(tier, seed):
     yield from seq_apply_cases(tier, OP)
     yield from exactmean_cases(tier)
     yield from mut_apply_cases(tier, OP)
+    yield from samename_cases(tier, OP)
+    yield from rewrite_cases(tier, OP)
     for label, pool in WHOLE_POOLS:
         for n in range(1, 5):
             for combo in itertools.product(pool, repeat=n):
@@ -283,6 +295,10 @@ def evaluate(case):
         return eval_mutapply(PID, case)
     if case['op'] == 'repeat':
         return eval_repeat(PID, case)
+    if case['op'] == 'samename':
+        return eval_samename(PID, case)
+    if case['op'] == 'rewrite':
+        return eval_rewrite(PID, case)
     if case['op'] == 'precision':
         return eval_precision(case)
     descr = agg_descr(case, OP)
@@ -307,6 +323,8 @@ def evaluate(case):
 
 
 def nontrivial(case):
+    if case.get('op') in ('samename', 'rewrite'):
+        return history_signature(case)
     return agg_signature(case)
 
 
@@ -322,13 +340,15 @@ if __name__ == '__main__':
               'every small table, and mean of big-int / Fraction / Decimal / float columns vs Python sum/len in the element type (exact where '
               '`/` is exact, else relative 1e-12) through aggregate and Vector.mean; plus twelve apply functions on one column, eight of which modify their argument, in rotating dict '
               'orders with / without the built-ins (each vs the function on a fresh list), and keys that are equal but distinguishable '
-              '(0.0/-0.0, True/1/1.0, 2/2.0). distinct = distinct (nk, mode, rows, '
+              '(0.0/-0.0, True/1/1.0, 2/2.0). plus two same-named vectors with different contents in one call (each result column vs the oracle on the vector passed) and '
+              'call / in-place cell write (hash-colliding values included) / call again histories vs the oracle on the new contents. distinct = distinct (nk, mode, rows, '
               'groups, interleaved, all-None group, None key, aggs, apply) signatures',
          bound=lambda tier: dict(agg_bound(tier), whole_column_pools=[p for _, p in WHOLE_POOLS], whole_column_max_len=4,
                                  repeat_variants=REPEAT_VARIANTS, repeat_key_vectors='{None,0,1}^3 ordered pairs; runs over ^3 and ^4',
                                  precision_families=[f for f, _ in PRECISION_FAMILIES], precision_len=[2, 4 if tier == 'quick' else 5],
                                  seq_apply_functions=SEQ_APPLY_NAMES, seq_apply_tables='1 key <=%d rows, 2 keys <=%d rows, over=[] <=%d rows' % ((3, 2, 3) if tier == 'quick' else (4, 3, 4)),
                                  exact_mean_families={f: [repr(x) for x in p] for f, p in EXACT_MEAN_FAMILIES}, exact_mean_len=[1, 3 if tier == 'quick' else 4],
-                                 mutating_apply_functions=MUT_APPLY_NAMES,
+                                 mutating_apply_functions=MUT_APPLY_NAMES, same_name_vector_pairs=SAMENAME_HOWS, same_name_plans=len(SAMENAME_PLANS),
+                                 rewrite_writes=REWRITE_HOWS, rewrite_key_pairs=[p[0] for p in REWRITE_KEY_PAIRS], rewrite_value_pairs=[p[0] for p in REWRITE_VAL_PAIRS],
                                  mutating_apply_orders='2 rotations + reverses per table' if tier == 'quick' else 'all 12 rotations + reverses; every ordered pair alone'),
          nontrivial=nontrivial)
